@@ -99,21 +99,72 @@ def ref_design(ev, L):
     return X
 
 
-def build_inputs(d):
-    import nitime.timeseries as ts
-    data = np.array([unhex(r) for r in d["data"]], dtype=float)
-    if d["is1d"]:
-        data = data[0]
-    kw = dict(sampling_interval=d["dt"], time_unit=d["unit"])
+RATES = [3.0, 7.0, 100.0, 1.0 / 0.81327, 0.5, 1000.0 / 2.5, 1.0 / 0.72, 1.0 / 1.1]
+
+
+def series_kw(d):
+    """how the series (and the coded events) are constructed: by sampling interval or by sampling rate"""
+    v = d.get("variant", {})
+    if v.get("ts_by") == "rate":
+        kw = dict(sampling_rate=d["rate"], time_unit=d["unit"])
+    else:
+        kw = dict(sampling_interval=d["dt"], time_unit=d["unit"])
     if d.get("t0_in"):
         kw["t0"] = d["t0_in"]
+    return kw
+
+
+def build_inputs(d):
+    """implementation objects of a case; `variant` selects alternative but equivalent input forms
+    (memory layout / dtype of the data, construction by rate, event times as float seconds, ...)"""
+    import nitime.timeseries as ts
+    v = d.get("variant", {})
+    data = np.array([unhex(r) for r in d["data"]], dtype=float)
+    lay = v.get("layout", "C")
+    if lay == "F":
+        data = np.asfortranarray(data)
+    elif lay == "strided":
+        big = np.full((data.shape[0], 2 * data.shape[1] + 1), 7.25)
+        big[:, 1::2] = data
+        data = big[:, 1::2]
+    elif lay == "int":
+        data = data.astype(np.int64)
+    elif lay == "derived":
+        data = (data + 0).view(np.ndarray)[:, ::-1][:, ::-1]
+    if d["is1d"]:
+        data = data[0]
+    kw = series_kw(d)
     T = ts.TimeSeries(data, **kw)
     if d["kind"] in ("eta_ev", "ets_ev"):
-        E = ts.Events(np.array(d["times_ps"], dtype=np.int64), time_unit="ps")
+        tps = np.array(d["times_ps"], dtype=np.int64)
+        if v.get("ev_form") == "sec_float":
+            E = ts.Events(tps / 1e12, time_unit="s")
+        elif v.get("ev_form") == "timearray":
+            E = ts.Events(ts.TimeArray(tps, time_unit="ps"))
+        else:
+            E = ts.Events(tps, time_unit="ps")
     else:
-        ev = np.array(d["events"], dtype=int)
+        ev = np.array(d["events"], dtype=float if v.get("ev_dtype") == "float" else int)
+        if v.get("ev_dtype") == "F" and ev.ndim == 2:
+            ev = np.asfortranarray(ev)
         E = ts.TimeSeries(ev, **kw)
     return T, E
+
+
+def make_analyzer(d, T, E):
+    from nitime.analysis import EventRelatedAnalyzer
+    v = d.get("variant", {})
+    L, off = d["len"], d["offset"]
+    if v.get("len_as") == "float":
+        L = L + 0.5
+    elif v.get("len_as") == "npint":
+        L = np.int64(L)
+    if v.get("off_as") == "npint":
+        off = np.int64(off)
+    zs, bc = d.get("zs", False), d.get("bc", False)
+    if v.get("call") == "pos":
+        return EventRelatedAnalyzer(T, E, L, zs, bc, off)
+    return EventRelatedAnalyzer(time_series=T, events=E, len_et=L, zscore=zs, correct_baseline=bc, offset=off)
 
 
 def observe_arr(r):
@@ -128,7 +179,6 @@ def observe_arr(r):
 
 def run_case(d):
     """run the described call on the implementation; returns (observed, dt_ps, pinv calls)"""
-    from nitime.analysis import EventRelatedAnalyzer
     import nitime.utils as tsu
     calls = []
     dt_ps = None
@@ -140,8 +190,10 @@ def run_case(d):
             return {"t": "design", "cols": [[int(v) for v in c] for c in X.T]}, None, []
         T, E = build_inputs(d)
         dt_ps = int(np.asarray(T.sampling_interval))
-        a = EventRelatedAnalyzer(T, E, d["len"], zscore=d.get("zs", False), correct_baseline=d.get("bc", False),
-                                 offset=d["offset"])
+        if d["kind"] in ("eta_ev", "ets_ev"):
+            # the event times the implementation actually holds (ps); a float form may round differently
+            d["times_obs"] = [int(x) for x in np.asarray(E.time).ravel()]
+        a = make_analyzer(d, T, E)
         k = d["kind"]
         if k == "fir":
             with PinvRecorder() as rec:
@@ -221,9 +273,9 @@ def case_coq(d, o, dt_ps, calls):
     if k == "et_data":
         return "(KEtData %s %s %s %s)" % (data, ev_coq(d["events"], d["ev2d"]), common, oc)
     if k == "eta_ev":
-        return "(KEtaEv %s %s %s %s %s)" % (data, zlist(d["times_ps"]), common, flags, oc)
+        return "(KEtaEv %s %s %s %s %s)" % (data, zlist(d.get("times_obs", d["times_ps"])), common, flags, oc)
     if k == "ets_ev":
-        return "(KEtsEv %s %s %s %s %s)" % (data, zlist(d["times_ps"]), common, flags, oc)
+        return "(KEtsEv %s %s %s %s %s)" % (data, zlist(d.get("times_obs", d["times_ps"])), common, flags, oc)
     raise KeyError(k)
 
 
@@ -580,7 +632,9 @@ def gen_design(rng, big):
 
 def series_dt_ps(d):
     import nitime.timeseries as ts
-    T = ts.TimeSeries(np.zeros(2), sampling_interval=d["dt"], time_unit=d["unit"])
+    kw = series_kw(d)
+    kw.pop("t0", None)
+    T = ts.TimeSeries(np.zeros(2), **kw)
     return int(np.asarray(T.sampling_interval))
 
 
